@@ -165,6 +165,14 @@ class OutgoingRIB(Cache):
         for route in self.cached_routes(list(self.families)):
             self.add_to_rib(route, True)
 
+        if not self.cache:
+            # without an adj-rib-out nothing remembers what the previous session was sent: the routes of
+            # the configuration are announced again (those a watchdog currently holds back excepted)
+            held = {index for group in self._watchdog.values() for index in group.get('-', {})}
+            for route in new:
+                if route.index() not in held:
+                    self.add_to_rib(route, True)
+
         for index in list(indexed):
             self.del_from_rib(indexed.pop(index))
 
